@@ -118,11 +118,13 @@ class Summary:
     ret: Optional[AV] = None
     fields: Dict[str, AV] = field(default_factory=dict)  # for __init__: attribute -> stored value
     mut_why: Dict[str, str] = field(default_factory=dict)
+    cap: Set[Root] = field(default_factory=set)  # operand storage captured into the receiver (non-constructor stores)
+    cap_why: Dict[str, str] = field(default_factory=dict)
     unknown_calls: Set[str] = field(default_factory=set)
 
     def key(self):
         r = self.ret
-        return (frozenset(self.mut), frozenset(self.umut),
+        return (frozenset(self.mut), frozenset(self.umut), frozenset(self.cap),
                 None if r is None else (r.kind, r.sh, r.dp, r.ud, r.cls),
                 tuple(sorted((k, (v.kind, v.sh, v.dp, v.ud)) for k, v in self.fields.items())))
 
@@ -305,6 +307,7 @@ class FuncAnalysis:
                 self.bool_params.add(p)
         self.is_init = fi.name == "__init__" and fi.cls is not None
         self.rets: List[AV] = []
+        self.nesting = 0
         self.callable_alias: Dict[str, str] = {}
         for n in walk_no_nested(fi.node):
             if isinstance(n, ast.Assign) and len(n.targets) == 1 and isinstance(n.targets[0], ast.Name):
@@ -393,6 +396,17 @@ class FuncAnalysis:
             for r in self._g(av.dp):
                 pass  # dp of unknown-kind values are still definite aliases (e.g. un-annotated parameter)
 
+    def capture(self, holder: AV, v: AV, how: str) -> None:
+        """A value stored into an object / list that belongs to a parameter: the holder now shares v's storage."""
+        if not holder.sh and not holder.dp:
+            return  # locally created holder
+        hold = {p.split(".")[0] for p, _ in (holder.sh | holder.dp)}
+        for (p, g) in self._g(v.dp):
+            if p.split(".")[0] in hold:
+                continue  # moving a holder's own storage around
+            self.sum.cap.add((f"{p}=>{sorted(hold)[0]}", g))
+            self.sum.cap_why.setdefault(f"{p}=>{sorted(hold)[0]}", how)
+
     @staticmethod
     def _attr_path(p: str, attr: str) -> str:
         return p if "." in p else f"{p}.{attr}"
@@ -476,6 +490,13 @@ class FuncAnalysis:
                 env[k] = join(a, b)
 
     def if_stmt(self, st: ast.If, env: Dict[str, AV]) -> bool:
+        self.nesting += 1
+        try:
+            return self._if_stmt(st, env)
+        finally:
+            self.nesting -= 1
+
+    def _if_stmt(self, st: ast.If, env: Dict[str, AV]) -> bool:
         self.ev(st.test, env)
         g = self.guard_of(st.test)
         e1, e2 = dict(env), dict(env)
@@ -531,6 +552,13 @@ class FuncAnalysis:
         return None
 
     def loop(self, st, env: Dict[str, AV]) -> None:
+        self.nesting += 1
+        try:
+            self._loop(st, env)
+        finally:
+            self.nesting -= 1
+
+    def _loop(self, st, env: Dict[str, AV]) -> None:
         if isinstance(st, ast.For):
             it = self.ev(st.iter, env)
             elem = self.element_of(it, st.iter, env)
@@ -545,7 +573,53 @@ class FuncAnalysis:
             self.merge_into(env, e)
             if env == before:
                 break
+        if isinstance(st, ast.For):
+            self.complete_overwrite(st, env)
         self.block(st.orelse, env)
+
+    def _is_length_like(self, x: ast.expr, lname: str, depth: int = 0) -> bool:
+        if isinstance(x, ast.Call) and isinstance(x.func, ast.Name) and x.func.id == "len" and x.args:
+            return True
+        if isinstance(x, ast.Attribute) and x.attr in ("ndims", "ndim"):
+            return True
+        if isinstance(x, ast.Name) and depth < 2:
+            for n in walk_no_nested(self.fi.node):
+                if isinstance(n, ast.Assign) and any(isinstance(t, ast.Name) and t.id == x.id for t in n.targets):
+                    if self._is_length_like(n.value, lname, depth + 1):
+                        return True
+        return False
+
+    def complete_overwrite(self, st: ast.For, env: Dict[str, AV]) -> None:
+        """`for i in range(n): L[i] = <fresh>` replaces every element of the list L.
+
+        A may-analysis keeps L's old element roots; when the loop provably visits every index
+        (n is len(...) / .ndims) they are dropped, otherwise they are demoted to unknown-mediated."""
+        it = st.iter
+        if not (isinstance(it, ast.Call) and isinstance(it.func, ast.Name) and it.func.id == "range" and len(it.args) == 1
+                and isinstance(st.target, ast.Name)):
+            return
+        v = st.target.id
+        for b in st.body:
+            if isinstance(b, ast.Assign) and len(b.targets) == 1 and isinstance(b.targets[0], ast.Subscript):
+                t = b.targets[0]
+                if isinstance(t.value, ast.Name) and isinstance(t.slice, ast.Name) and t.slice.id == v and t.value.id in env:
+                    cur = env[t.value.id]
+                    if cur.kind != "list" or cur.sh:
+                        continue  # only locally owned containers
+                    e2 = dict(env)
+                    e2[t.value.id] = AV("list", E, E, E, cur.cls)
+                    saved = (set(self.sum.mut), set(self.sum.umut))
+                    rhs = self.ev(b.value, e2)
+                    self.sum.mut, self.sum.umut = saved
+                    # other stores into the same list inside the loop keep their roots
+                    others = [x for x in ast.walk(st) if isinstance(x, ast.Assign) and x is not b and any(
+                        isinstance(tt, ast.Subscript) and isinstance(tt.value, ast.Name) and tt.value.id == t.value.id for tt in x.targets)]
+                    if others:
+                        continue
+                    if self._is_length_like(it.args[0], t.value.id):
+                        env[t.value.id] = AV("list", E, rhs.dp, rhs.ud, cur.cls, rhs.why)
+                    else:
+                        env[t.value.id] = AV("list", E, rhs.dp, rhs.ud | (cur.dp - rhs.dp) | cur.ud, cur.cls, rhs.why)
 
     # ---------------------------------------------------------- narrowing
     def narrow(self, test: ast.expr, env: Dict[str, AV], truth: bool) -> None:
@@ -629,6 +703,7 @@ class FuncAnalysis:
                 return
             if base.kind in ("list", "seq", "tuple"):
                 self.mutate(base, f"item store `{ast.unparse(t)} = ...`", container=True)
+                self.capture(base, v, f"`{ast.unparse(t)} = ...` keeps a reference")
                 # the stored value now lives in the container
                 if isinstance(t.value, ast.Name) and t.value.id in env:
                     cur = env[t.value.id]
@@ -650,13 +725,15 @@ class FuncAnalysis:
                 for g in cur:
                     vv = with_guard(vv, g)
                 old = self.sum.fields.get(t.attr)
-                self.sum.fields[t.attr] = vv if old is None or not cur else join(old, vv)
+                # strong update only for a store that is not nested in any branch / loop
+                self.sum.fields[t.attr] = vv if (old is None or self.nesting == 0) else join(old, vv)
                 return
             if base.kind == "nd" and t.attr in ("shape", "dtype"):
                 self.mutate(base, f"`{ast.unparse(t)} = ...` reshapes in place")
                 return
             # attribute store: mutates the object (the attribute slot)
             self.mutate(base, f"attribute store `{ast.unparse(t)} = ...`", container=True, attr=t.attr)
+            self.capture(base, v, f"`{ast.unparse(t)} = ...` keeps a reference")
             if isinstance(t.value, ast.Name) and t.value.id in env and not env[t.value.id].sh:
                 cur_av = env[t.value.id]
                 env[t.value.id] = AV(cur_av.kind, cur_av.sh, cur_av.dp | v.dp, cur_av.ud | v.ud, cur_av.cls, cur_av.why or v.why)
@@ -1447,6 +1524,13 @@ class FuncAnalysis:
             d, u = self.map_roots({(path, gs)}, callee, bound, nodes, "dp")
             for r in self._g(d | u):
                 self.sum.umut.add(r)
+        for path, gs in s.cap:
+            src, _, hold = path.partition("=>")
+            d, _u = self.map_roots({(src, gs)}, callee, bound, nodes, "dp")
+            h, _u2 = self.map_roots({(hold, E)}, callee, bound, nodes, "dp")
+            if definite:
+                hv = AV("obj", h, h)
+                self.capture(hv, AV("nd", E, d), f"call to {callee.short} ({s.cap_why.get(path, 'keeps a reference')})")
         r = s.ret or UNK
         sh, _ = self.map_roots(r.sh, callee, bound, nodes, "sh")
         dp, ud1 = self.map_roots(r.dp, callee, bound, nodes, "dp")
